@@ -109,6 +109,12 @@ def jobs_simple(prop, profile="general", matrix=None, miri_tables=None):
             js.extend(dfault_jobs(prop, n if prop != "C02" else n // 2, profile))
             if prop != "C02":
                 js.append(scale("scale-destructor-panics", prop, "rel", n // 40, extra=["--dfaults", "--twin", "--own", "C01,C02,C03,C04,C05"]))
+        if prop in ("C05", "C14"):
+            # zero-sized payloads (with and without destructor, Static<..>, from ZstCache): weak
+            # pointer queries in every phase, survival through a DynamicRoot handle only
+            js.extend(lay("zst-payloads", prop, fl, "convert", ["--only", "zst-payload*"], shards=1) for fl in ("dbg", "rel", "asan"))
+        if prop == "C06":
+            pass
         if prop == "C04":
             # every payload form of the builders x every way of dying (layoutmon table `lifecycle`)
             big = ["--big"] if tier == T else []
@@ -118,7 +124,7 @@ def jobs_simple(prop, profile="general", matrix=None, miri_tables=None):
             # end-to-end exactness through every provided container and through trait objects:
             # weakly held targets must be gone after two cycles, strongly held ones alive
             js.append(trc("container-survival", "C02", "dbg", "impls", shards=1, extra=["--only", "survival:containers"]))
-        if prop in ("C08", "C10", "C02", "C05"):
+        if prop in ("C08", "C10", "C02", "C05", "C03", "C07"):
             # the contract keeps holding on the calls that follow a caught panic
             js.append(rnd("random-faults", prop, "dbg", n // 2, profile=profile, extra=["--faults"]))
         for m in matrix or []:
@@ -298,12 +304,17 @@ CHECKS = {
             scen("barrier-matrix", "C06", "asan", "c06"),
             rnd("random", "C06", "dbg", size(tier, 80_000, 800_000)),
             rnd("random", "C06", "rel", size(tier, 80_000, 800_000)),
+            # every setter x 14 payload types (packed, over-aligned, weak-only ...) x 5 collector states
+            lay("barrier-types", "C06", "dbg", "barriers", shards=2),
+            lay("barrier-types", "C06", "rel", "barriers", shards=2),
+            lay("barrier-types", "C06", "asan", "barriers", shards=2),
+            miri("barrier-types-sample", "layoutmon", ["--prop", "C06", "--table", "barriers", "--shardmult", 4 if tier == Q else 1]),
             scale("scale", "C06", "dbg", size(tier, 1_000, 10_000)),
             scale("scale", "C06", "rel", size(tier, 4_000, 40_000)),
             miri_scen("C06", "c06", tier),
         ],
         rule="bounded-exhaustive scenario matrix: barrier path x child state x root layout x EVERY step count k of a whole cycle x drain mode; act, isolate, drain, two more full cycles; non-trivial = the hook snapshot classified a store made while not Sleeping; verdict by M-live / M-weak / M-panic",
-        floors={"cells": 5_000},
+        floors={"cells": 5_000, "barrier_type_checks": 400},
         assumptions=COMMON_ASSUME,
     ),
     "C07": dict(
